@@ -1,7 +1,258 @@
-import Grass.Num
+import GrassProofs.Lemmas.Num
+/-
+  C07 — Numbers are IEEE doubles with Sass rounding, modulo and printing rules.
+  Property theorems about the model `Grass/Num.lean`.
+
+  Conventions: a finite double is its exact rational value.  `…F` functions are the code as
+  executed (every floating-point operation followed by `rnd53`); `…X` functions are the same
+  formulas in exact arithmetic (the Sass rule).  Helper lemmas: `GrassProofs/Lemmas/Num.lean`.
+-/
 namespace Grass.Num
 
-theorem C07_fuzzyEqF_refl (a : Rat) : fuzzyEqF a a = true := by
-  simp [fuzzyEqF]
+/-- the double a decimal literal denotes (used only to name concrete witnesses) -/
+def dLit (s : String) : Rat := rnd53 ((parseLit s.toList).map Lit.value |>.getD 0)
+
+/-! ## fuzzy equality (number.rs:40) -/
+
+/-- `fuzzy_equals` as executed is reflexive. -/
+theorem C07_fuzzyEqF_refl (a : Rat) : fuzzyEqF a a = true := fuzzyEqF_refl a
+/-- `fuzzy_equals` as executed is symmetric. -/
+theorem C07_fuzzyEqF_symm (a b : Rat) : fuzzyEqF a b = fuzzyEqF b a := fuzzyEqF_symm a b
+example : fuzzyEqF 1 (dLit "1.000000000001") = true ∧ fuzzyEqF 1 (dLit "1.00000000001") = false := by
+  decide +kernel
+
+/-- In exact arithmetic the rule is "same 10⁻¹¹ bucket": the `|a−b| ≤ ε` conjunct is implied. -/
+theorem C07_fuzzyEqX_iff_bucket (a b : Rat) : fuzzyEqX a b = (bucket a == bucket b) :=
+  fuzzyEqX_eq_bucket a b
+/-- … hence an equivalence relation. -/
+theorem C07_fuzzyEqX_equivalence : Equivalence (fun a b : Rat => fuzzyEqX a b = true) :=
+  fuzzyEqX_equivalence
+example : fuzzyEqX 1 (1 + 1/1000000000000) = true ∧ fuzzyEqX 1 (1 + 1/100000000000) = false := by
+  decide +kernel
+
+/-- NOT CLAIMED: transitivity of the relation *as executed in floating point*.  The products
+    `a·10¹¹` are rounded before `round()`, so bucket borders are blurred by half an ulp of the
+    product; no counterexample was found, no proof either.  Kept visible; the proved statements are
+    reflexivity, symmetry (above) and the equivalence of the exact rule. -/
+def C07_fuzzyEqF_transitive_full : Prop :=
+  ∀ a b c : Rat, fuzzyEqF a b = true → fuzzyEqF b c = true → fuzzyEqF a c = true
+
+/-! ## ordering consistent with equality (number.rs:79-85; value/mod.rs:341) -/
+
+/-- Trichotomy of the specified ordering over `fuzzy_equals` as executed: exactly one of
+    `a < b`, `a == b`, `b < a`. -/
+theorem C07_trichotomyF (a b : Rat) :
+    (fuzzyLt fuzzyEqF a b = true ∧ fuzzyEqF a b = false ∧ fuzzyLt fuzzyEqF b a = false) ∨
+    (fuzzyLt fuzzyEqF a b = false ∧ fuzzyEqF a b = true ∧ fuzzyLt fuzzyEqF b a = false) ∨
+    (fuzzyLt fuzzyEqF a b = false ∧ fuzzyEqF a b = false ∧ fuzzyLt fuzzyEqF b a = true) :=
+  fuzzy_trichotomy fuzzyEqF fuzzyEqF_refl fuzzyEqF_symm a b
+
+/-- the same for the exact rule -/
+theorem C07_trichotomyX (a b : Rat) :
+    (fuzzyLt fuzzyEqX a b = true ∧ fuzzyEqX a b = false ∧ fuzzyLt fuzzyEqX b a = false) ∨
+    (fuzzyLt fuzzyEqX a b = false ∧ fuzzyEqX a b = true ∧ fuzzyLt fuzzyEqX b a = false) ∨
+    (fuzzyLt fuzzyEqX a b = false ∧ fuzzyEqX a b = false ∧ fuzzyLt fuzzyEqX b a = true) :=
+  fuzzy_trichotomy fuzzyEqX (fun a => C07_fuzzyEqX_equivalence.refl a)
+    (fun a b => by rw [fuzzyEqX_eq_bucket, fuzzyEqX_eq_bucket]; exact BEq.comm) a b
+
+/-- `<=` is `<` or `==`, and is the negation of the reversed `<`. -/
+theorem C07_fuzzyLe_consistent (a b : Rat) :
+    fuzzyLe fuzzyEqF a b = (fuzzyLt fuzzyEqF a b || fuzzyEqF a b) ∧
+    fuzzyLe fuzzyEqF a b = !fuzzyLt fuzzyEqF b a := by
+  rcases C07_trichotomyF a b with h | h | h <;>
+    (obtain ⟨h1, h2, h3⟩ := h
+     simp only [fuzzyLt, fuzzyLe, Bool.and_eq_true, Bool.and_eq_false_iff, decide_eq_true_eq,
+       decide_eq_false_iff_not, Bool.not_eq_true', Bool.not_eq_false'] at *
+     constructor <;> (rw [fuzzyEqF_symm b a] at *; cases hd : decide (a < b) <;> cases hd' : decide (b < a) <;> simp_all))
+
+/-- The specified comparison of two finite numbers (`cmpD false`) answers "equal" exactly when
+    `==` does, so `<`/`==`/`>` cannot overlap. -/
+theorem C07_cmp_specified_eq_iff (x y : Rat) :
+    (cmpD false (.fin x) (.fin y) = some .eq) ↔ eqD (.fin x) (.fin y) = true := by
+  unfold cmpD
+  simp only [D.isNan, Bool.or_self, Bool.false_eq_true, if_false, Bool.not_false, Bool.true_and]
+  by_cases he : eqD (.fin x) (.fin y) = true
+  · simp [he]
+  · simp only [he, if_false]
+    have hne : x ≠ y := by
+      intro e; subst e; exact he (by simp [eqD, D.toRat?, fuzzyEqF])
+    simp only [D.lt, D.toRat?]
+    by_cases h1 : x < y
+    · simp [h1, he]
+    · have h2 : y < x := by grind
+      simp [h1, h2, he]
+
+/-- **As the code stands** the ordering is the exact IEEE order although `==` is fuzzy: both
+    `1 < 1.000000000001` and `1 == 1.000000000001` hold (known finding D23); the specified
+    comparison answers "equal". -/
+theorem C07_asFound_order_overlaps_eq :
+    cmpD true (.fin 1) (.fin (dLit "1.000000000001")) = some .lt ∧
+    eqD (.fin 1) (.fin (dLit "1.000000000001")) = true ∧
+    cmpD false (.fin 1) (.fin (dLit "1.000000000001")) = some .eq := by decide +kernel
+
+/-! ## integer checks (number.rs:48) and round/ceil/floor -/
+
+/-- `fuzzy_as_int` (exact rule) is sound: the answer is the nearest integer and lies within
+    ½·10⁻¹¹ of the number. -/
+theorem C07_fuzzyAsIntX_sound (x : Rat) (n : Int) (h : fuzzyAsInt fuzzyEqX x = some n) :
+    n = roundHA x ∧ 2 * absQ (x - n) * invEps ≤ 1 := fuzzyAsIntX_sound x n h
+/-- … and complete: every number strictly within ½·10⁻¹¹ of an integer is that integer. -/
+theorem C07_fuzzyAsIntX_complete (x : Rat) (n : Int) (h : 2 * absQ (x - n) * invEps < 1) :
+    fuzzyAsInt fuzzyEqX x = some n := fuzzyAsIntX_complete x n h
+example : fuzzyAsInt fuzzyEqX (2 + 4/1000000000000) = some 2 ∧ fuzzyAsInt fuzzyEqX (2 + 1/100000000000) = none := by
+  decide +kernel
+
+/-- as executed: the answer is `round(x)` and is `==` to `x` -/
+theorem C07_fuzzyAsIntF_sound (x : Rat) (n : Int) (h : fuzzyAsInt fuzzyEqF x = some n) :
+    n = roundHA x ∧ fuzzyEqF x n = true := by
+  unfold fuzzyAsInt at h
+  simp only at h
+  split at h
+  · rename_i he; injection h with h; subst h; exact ⟨rfl, he⟩
+  · cases h
+
+/-- `round()` is the nearest integer (halves away from zero): within ½. -/
+theorem C07_round_nearest (q : Rat) : 2 * absQ (q - (roundHA q : Int)) ≤ 1 := roundHA_dist q
+/-- integers are fixed by `round()` -/
+theorem C07_round_int (k : Int) : roundHA (k : Rat) = k := roundHA_intCast k
+/-- `floor`/`ceil` bracket the number within one unit -/
+theorem C07_floor_ceil (q : Rat) :
+    (q.floor : Rat) ≤ q ∧ q < (q.floor : Rat) + 1 ∧ q ≤ (ceilQ q : Rat) ∧ (ceilQ q : Rat) < q + 1 := by
+  have h1 := Rat.floor_le q
+  have h2 := Rat.lt_floor_add_one q
+  have h3 := Rat.floor_le (-q)
+  have h4 := Rat.lt_floor_add_one (-q)
+  simp only [Rat.intCast_add] at h2 h4
+  unfold ceilQ
+  simp only [Rat.intCast_neg]
+  refine ⟨h1, by simpa using h2, by grind, by grind⟩
+example : roundHA (5/2) = 3 ∧ roundHA (-5/2) = -3 ∧ ceilQ (-1/2) = 0 ∧ (-1/2 : Rat).floor = -1 := by decide +kernel
+
+/-- dormant (not reachable from Sass today, all callers pass non-negative channels):
+    `fuzzy_round` floors every negative input because Rust's `%` truncates. -/
+theorem C07_asFound_fuzzyRound_negative : fuzzyRoundX (-24/10) = -3 := by decide +kernel
+
+/-! ## modulo (number.rs:378-398) -/
+
+/-- Sass `%` in exact arithmetic: the result has the sign of the divisor (or is zero), is smaller in
+    magnitude than the divisor and differs from the dividend by an integer multiple of the divisor. -/
+theorem C07_modulo_sign (a b r : Rat) (hb : b ≠ 0) (h : moduloX a b = some r) :
+    (0 < b → 0 ≤ r) ∧ (b < 0 → r ≤ 0) ∧ absQ r < absQ b ∧ ∃ k : Int, a = r + (k : Rat) * b :=
+  modulo_sign a b r hb h
+/-- a zero divisor yields NaN -/
+theorem C07_modulo_zero (a : Rat) : moduloX a 0 = none := modulo_zero a
+example : moduloX 5 (-3) = some (-1) ∧ moduloX (-5) 3 = some 1 ∧ moduloX (11/2) (-2) = some (-1/2) := by
+  decide +kernel
+
+/-- Floating-point caveat, kernel-checked: as executed (`rem_euclid` rounds `r + |b|`) the strict
+    bound `|r| < |b|` can degrade to equality: `-1e-20 % 3` is `3`. The sign law still holds there. -/
+theorem C07_moduloD_rounding_edge :
+    moduloD (.fin (dLit "-1e-20")) (.fin 3) = some (.fin 3) := by decide +kernel
+
+/-! ## printing (serializer.rs:568, number.rs:265) -/
+
+/-- **Exact value of the printed text**, both styles: re-parsing the text with the literal grammar
+    of `parse_number` gives exactly `x` rounded (half-even) to 10 fractional digits. -/
+theorem C07_print_parse_exact (compressed : Bool) (x : Rat) :
+    ∃ l, parseLit (printFinite false compressed x) = some l ∧ l.value = round10 x :=
+  printFinite_parse compressed x
+
+/-- **Correct rounding**: the printed text denotes a number within ½·10⁻¹⁰ of `x`. -/
+theorem C07_print_correctly_rounded (compressed : Bool) (x : Rat) :
+    ∃ l, parseLit (printFinite false compressed x) = some l ∧
+      2 * absQ (l.value - x) * 10000000000 ≤ 1 := by
+  obtain ⟨l, h1, h2⟩ := printFinite_parse compressed x
+  exact ⟨l, h1, by rw [h2]; exact round10_close x⟩
+
+/-- the decidable predicate the driver evaluates on grass's text holds of the model's text -/
+theorem C07_print_roundedOK (compressed : Bool) (x : Rat) :
+    roundedOK x (printFinite false compressed x) = true := by
+  obtain ⟨l, h1, h2⟩ := C07_print_correctly_rounded compressed x
+  unfold roundedOK
+  rw [h1]
+  simpa using h2
+
+/-- **Compressed and expanded spellings denote the same number.** -/
+theorem C07_styles_same_value (x : Rat) :
+    ∃ l₁ l₂, parseLit (printFinite false false x) = some l₁ ∧ parseLit (printFinite false true x) = some l₂ ∧
+      l₁.value = l₂.value := by
+  obtain ⟨l₁, a1, a2⟩ := printFinite_parse false x
+  obtain ⟨l₂, b1, b2⟩ := printFinite_parse true x
+  exact ⟨l₁, l₂, a1, b1, by rw [a2, b2]⟩
+example : printFinite false false (dLit "-0.5") = "-0.5".toList ∧ printFinite false true (dLit "-0.5") = "-.5".toList ∧
+    printFinite false false (dLit "-0.00000000004") = "0".toList ∧
+    printFinite false true (dLit "0.99999999999") = "1".toList ∧
+    printFinite false false (1/2048) = "0.0004882812".toList := by decide +kernel
+
+/-- **Re-reading, characterised exactly** (exact arithmetic): the re-read number is `==` to `x`
+    iff `x` lies in the 10⁻¹¹ bucket of its own 10-digit rounding, i.e. iff the bucket of `x` is ten
+    times its scaled 10-digit value.  For every other `x` — those whose 11th fractional digit does
+    not round away — Sass itself says printed and original differ (known finding D15). -/
+theorem C07_reread_fuzzyEq_iff (compressed : Bool) (x : Rat) :
+    rereadX x (printFinite false compressed x) = true ↔ d15ClassX x = false := by
+  obtain ⟨l, h1, h2⟩ := printFinite_parse compressed x
+  unfold rereadX d15ClassX
+  rw [h1]
+  simp only [h2]
+  rw [fuzzyEqX_eq_bucket]
+  have hb : bucket (round10 x) = 10 * (if x < 0 then -(scaled10 x : Int) else (scaled10 x : Int)) := by
+    unfold bucket round10 invEps
+    have hs : ((scaled10 x : Nat) : Rat) / 10000000000 * 100000000000 = ((scaled10 x : Nat) : Rat) * 10 := by grind
+    by_cases hx : x < 0
+    · rw [if_pos hx, if_pos hx]
+      have e : -(((scaled10 x : Nat) : Rat) / 10000000000) * 100000000000 = ((10 * -(scaled10 x : Int) : Int) : Rat) := by
+        simp only [Rat.intCast_mul, Rat.intCast_neg, Rat.intCast_natCast]; grind
+      rw [e, roundHA_intCast]
+    · rw [if_neg hx, if_neg hx]
+      have e : ((scaled10 x : Nat) : Rat) / 10000000000 * 100000000000 = ((10 * (scaled10 x : Int) : Int) : Rat) := by
+        simp only [Rat.intCast_mul, Rat.intCast_natCast]; grind
+      rw [e, roundHA_intCast]
+  rw [hb]
+  simp [BEq.comm]
+
+/-- The last clause of the property is false of Sass's own rules — kernel-checked witness, floating
+    point as executed: `0.12345678904` prints `0.123456789`, and re-reading that text gives a number
+    that is not `==` to the original.  (Known finding D15; class predicate `d15Class`.) -/
+theorem C07_asFound_reread_fails :
+    printFinite false false (dLit "0.12345678904") = "0.123456789".toList ∧
+    rereadF (dLit "0.12345678904") "0.123456789".toList = some false ∧
+    d15Class (dLit "0.12345678904") = true ∧ d15ClassX (dLit "0.12345678904") = true := by decide +kernel
+
+/-- the re-read clause as far as it holds: outside the characterised class re-reading succeeds -/
+theorem C07_reread_partial (compressed : Bool) (x : Rat) (h : d15ClassX x = false) :
+    rereadX x (printFinite false compressed x) = true := (C07_reread_fuzzyEq_iff compressed x).2 h
+example : d15ClassX (dLit "0.5") = false ∧ d15ClassX (dLit "0.123456789") = false := by decide +kernel
+
+/-- The variant found on the pinned tree (`format!(…)[1..]`, fixed since): compressed output of
+    `0.99999999999` was `0`, eleven orders of magnitude off; the code as it stands prints `1`. -/
+theorem C07_asFound_slice_prints_zero :
+    printFinite true true (dLit "0.99999999999") = "0".toList ∧
+    printFinite true true (dLit "-0.99999999999") = "0".toList ∧
+    roundedOK (dLit "0.99999999999") (printFinite true true (dLit "0.99999999999")) = false ∧
+    printFinite false true (dLit "0.99999999999") = "1".toList := by decide +kernel
+
+/-! ## arithmetic is correctly rounded exact arithmetic (by construction of the model) -/
+
+/-- `+` on finite doubles is the exact sum rounded once (`none` = result below the normal range). -/
+theorem C07_add_rounded_exact (x y : Rat) : D.add (.fin x) (.fin y) = D.ofExact (x + y) false := rfl
+theorem C07_mul_rounded_exact (x y : Rat) :
+    D.mul (.fin x) (.fin y) = D.ofExact (x * y) (decide (x < 0) != decide (y < 0)) := rfl
+/-- division by zero yields Infinity / NaN -/
+theorem C07_div_zero (x : Rat) :
+    D.div (.fin x) (.fin 0) = some (if x = 0 then .nan else if x < 0 then .ninf else .pinf) := by
+  unfold D.div
+  by_cases h0 : x = 0
+  · subst h0; decide +kernel
+  · by_cases hn : x < 0 <;> simp [D.isInf, D.isZero, D.isNeg, D.inf, h0, hn]
+/-- rounding commutes with negation -/
+theorem C07_rnd53_neg (q : Rat) : rnd53 (-q) = -rnd53 q := rnd53_neg q
+example : D.add (.fin (dLit "0.1")) (.fin (dLit "0.2")) = some (.fin (1351079888211149/4503599627370496)) ∧
+    rnd53 (1/10) = 3602879701896397/36028797018963968 := by decide +kernel
+
+/-- NOT PROVED (kept visible): `rnd53 q` is a nearest 53-bit value, `|rnd53 q − q| ≤ 2⁻⁵³·|q|`, and is
+    monotone.  The definition is tied to IEEE by the correspondence run only (every arithmetic result
+    compared with grass's output). -/
+def C07_rnd53_nearest_full : Prop :=
+  ∀ q : Rat, q ≠ 0 → absQ (rnd53 q - q) * 9007199254740992 ≤ absQ q
 
 end Grass.Num
